@@ -69,6 +69,17 @@ def run(ctx):
     cases = [(False, [(0x8000, b"\x01\x02\x03")]), (False, [(0x454F46, b"abc")]), (True, [(0x454D46, b"a")]),
              (False, [(0, b"")]), (False, [(0x454F46, b"")]), (False, [(0x454F46 - 65535, b"\x07" * 65536)]),
              (True, [(0xFFFE00, b"\x01")]), (False, [(0xFFFFFF, b"\x01\x02")]), (False, [(1 << 24, b"\x01")])]
+    # sessions without a single non-empty block, and overlapping rewrites (the same block written again after another
+    # block overlapped it: every write is applied, in order)
+    cases += [(False, []), (True, []), (False, [(0x10, b""), (0x20, b"")]), (True, [(0x8000, b"")])]
+    for _ in range(12 if tier == "quick" else 120):
+        x = rng.randrange(0, 0x10000)
+        a = bytes(rng.randrange(256) for _ in range(rng.randrange(2, 6)))
+        k = rng.randrange(1, len(a))
+        cblk = bytes(rng.randrange(256) for _ in range(rng.randrange(1, 4)))
+        cases.append((rng.random() < 0.5, [(x, a), (x + k, cblk), (x, a)]))
+        cases.append((rng.random() < 0.5, [(x, a), (x, a), (x + k, cblk), (x, a), (x, a)]))
+        cases.append((False, [(x + k, cblk), (x, a), (x - 1 if x else x, cblk + a), (x, a)]))
     for _ in range(150 if tier == "quick" else 1500):
         cases.append((rng.random() < 0.5, gen_blocks(rng, tier)))
     ops = [f"ipsw {1 if c else 0} " + (";".join(f"{a}:{d.hex() or '-'}" for a, d in bl) or "-") for c, bl in cases]
